@@ -1,2 +1,3 @@
+import PyOak.Props.GenBridge
 import PyOak.Props.C07Main
 import PyOak.Props.C07Parse
